@@ -283,7 +283,10 @@ fn case_builtin1<T: Elem>(case: u64, args: &Args, ev: &mut Ev) {
             let shape = query_shape(&mut rng, kind);
             let n: usize = shape.iter().product();
             let vals = distinct_queries(&mut rng, x[0], x[x.len() - 1], n);
-            let qa = Query::from_vec(vals, &shape, kind);
+            // the query array itself comes in every memory layout (C, F, permuted, strided, reversed)
+            let lay = vh::lay::Layout::random(&mut rng, shape.len());
+            c.ev.count("query_layout", lay.class());
+            let qa = Query::with_layout(&ArrayD::from_shape_vec(IxDyn(&shape), vals).unwrap(), kind, &lay);
             check1(&mut c, interp, &spec, &qa, &mut rng);
         }
     });
@@ -319,8 +322,11 @@ fn case_builtin2<T: Elem>(case: u64, args: &Args, ev: &mut Ev) {
             let n: usize = shape.iter().product();
             let vx = distinct_queries(&mut rng, x[0], x[x.len() - 1], n);
             let vy = distinct_queries(&mut rng, y[0], y[y.len() - 1], n);
-            let qx = Query::from_vec(vx, &shape, kind);
-            let qy = Query::from_vec(vy, &shape, kind);
+            let lx = vh::lay::Layout::random(&mut rng, shape.len());
+            let ly = vh::lay::Layout::random(&mut rng, shape.len());
+            c.ev.count("query_layout", lx.class());
+            let qx = Query::with_layout(&ArrayD::from_shape_vec(IxDyn(&shape), vx).unwrap(), kind, &lx);
+            let qy = Query::with_layout(&ArrayD::from_shape_vec(IxDyn(&shape), vy).unwrap(), kind, &ly);
             check2(&mut c, interp, &spec, &qx, &qy, &mut rng);
         }
     });
@@ -363,8 +369,10 @@ fn case_rec<T: Elem>(case: u64, args: &Args, ev: &mut Ev) {
                 let qshape = query_shape(&mut rng, kind);
                 let nq: usize = qshape.iter().product();
                 let vals = mk_vals(&mut rng, nq);
-                let qa = Query::from_vec(vals.clone(), &qshape, kind);
+                let lay = vh::lay::Layout::random(&mut rng, qshape.len());
+                let qa = Query::with_layout(&ArrayD::from_shape_vec(IxDyn(&qshape), vals.clone()).unwrap(), kind, &lay);
                 ev.count("query_kind", kind.name());
+                ev.count("query_layout", lay.class());
                 h.reset_calls();
                 match interp.many(&qa) {
                     Outcome::Ok(r) => {
